@@ -123,13 +123,19 @@ def r_C12b(root):
     bad2 = None
     if own is not None:
         fns_l = {k_: v_ for k_, v_ in helper_functions(root, L, "TextXVisitor.visit_string_value").items() if not k_.startswith("__") and not k_.startswith("visit_")}
-        for w in words:
+        # the comparison also covers literals with the letters n and t after a backslash (escape sequences neither reader decodes)
+        words2 = list(words)
+        for n_ in range(2, 6):
+            for tup in itertools.product("a\\'\"nt", repeat=n_):
+                w_ = "".join(tup)
+                if ("n" in w_ or "t" in w_) and any(_accepts(a, w_) for a in nfas): words2.append(w_)
+        for w in words2:
             try: a_ = visit(w); b_ = pyeval.run_block(own.body, {"__functions__": fns_l, "__module__": lt, "node.value": w, "node": {".value": w, ".kind": "node"}, "children": [], "self": {".kind": "visitor"}})
             except pyeval.Unsupported as e: raise AnalysisError("TextXVisitor.visit_string_value: outside the evaluated subset: %s" % e)
             except pyeval.Raised as e: bad2 = (w, "raises %s" % e.cls); break
             if a_ != b_: bad2 = (w, "is read as %r by the grammar visitor and as %r by the RREL parser" % (b_, a_)); break
     inst += 1
-    for pr in ("C32", "C12"): ob(pr, "C12.e", L, "TextXVisitor.visit_string_value / RRELVisitor.visit_string_value", "both visitors read every string literal alike (%d literals)" % len(words), bad2 is None)
+    for pr in ("C32", "C12"): ob(pr, "C12.e", L, "TextXVisitor.visit_string_value / RRELVisitor.visit_string_value", "both visitors read every string literal alike (%d literals)" % (len(words2) if own is not None else 0), bad2 is None)
     if bad2:
         for pr in ("C32", "C12"): out.append(Finding(pr, "C12.e", L, "TextXVisitor.visit_string_value", "string literal %s" % bad2[0], "the literal %s %s: an RREL expression written in a grammar and the same expression registered as a string select different objects" % bad2, witness="ref=[T|ID|'a\\'b'~items] in the grammar vs. rrel.parse of the same text"))
     inst += len(words)
